@@ -25,6 +25,7 @@ type Env struct {
 	pkg    *types.Package
 	spec   *FuncSpec
 	depth  int
+	cellSt *State // inside old(...): locals keep their current values, only the heap is old
 }
 
 func (e *Env) pkgOr(p *types.Package) *types.Package {
@@ -217,6 +218,11 @@ func (ex *Exec) evIdent(name string, env *Env) Val {
 			if v, ok := st.cells[a]; ok {
 				return v
 			}
+			if env.cellSt != nil {
+				if v, ok := env.cellSt.cells[a]; ok {
+					return v
+				}
+			}
 			// struct-typed local: its object reference
 			if rv, ok := ex.vals[a]; ok && rv.T != nil {
 				return Val{T: rv.T, Ty: a.Type()}
@@ -286,6 +292,9 @@ func (ex *Exec) ev(e SExpr, env *Env) Val {
 	case *SOld:
 		n := *env
 		n.inOld = true
+		if n.cellSt == nil {
+			n.cellSt = env.st
+		}
 		n.st = env.old
 		return ex.ev(x.X, &n)
 	case *SLet:
